@@ -71,6 +71,17 @@ extern "C" {
     fn anoncreds_key_correctness_proof_from_json(json: ByteBuffer, result_p: *mut usize) -> usize;
     fn anoncreds_create_credential_offer(schema_id: *const c_char, cred_def_id: *const c_char, kcp: usize, result_p: *mut usize) -> usize;
     fn anoncreds_credential_definition_private_from_json(json: ByteBuffer, result_p: *mut usize) -> usize;
+    fn anoncreds_revocation_registry_definition_private_from_json(json: ByteBuffer, result_p: *mut usize) -> usize;
+    fn anoncreds_w3c_credential_from_json(json: ByteBuffer, result_p: *mut usize) -> usize;
+    fn anoncreds_credential_get_attribute(handle: usize, name: *const c_char, result_p: *mut *const c_char) -> usize;
+    fn anoncreds_revocation_registry_definition_get_attribute(handle: usize, name: *const c_char, result_p: *mut *const c_char) -> usize;
+    fn anoncreds_credential_to_w3c(cred: usize, issuer_id: *const c_char, version: *const c_char, result_p: *mut usize) -> usize;
+    fn anoncreds_credential_from_w3c(cred: usize, result_p: *mut usize) -> usize;
+    fn anoncreds_w3c_credential_get_integrity_proof_details(handle: usize, result_p: *mut usize) -> usize;
+    fn anoncreds_w3c_credential_proof_get_attribute(handle: usize, name: *const c_char, result_p: *mut *const c_char) -> usize;
+    fn anoncreds_update_revocation_status_list(cred_def: usize, reg_def: usize, reg_priv: usize, current: usize, issued: FfiList<i32>, revoked: FfiList<i32>, timestamp: i64, result_p: *mut usize) -> usize;
+    fn anoncreds_create_revocation_status_list(cred_def: usize, reg_def_id: *const c_char, reg_def: usize, reg_priv: usize, issuer_id: *const c_char, by_default: i8, timestamp: i64, result_p: *mut usize) -> usize;
+    fn anoncreds_create_or_update_revocation_state(reg_def: usize, list: usize, idx: i64, tails_path: *const c_char, old_state: usize, old_list: usize, result_p: *mut usize) -> usize;
     fn anoncreds_credential_request_from_json(json: ByteBuffer, result_p: *mut usize) -> usize;
     fn anoncreds_create_credential(cred_def: usize, cred_def_private: usize, offer: usize, request: usize, names: FfiList<*const c_char>, raws: FfiList<*const c_char>, encs: FfiList<*const c_char>, revocation: *const c_void, result_p: *mut usize) -> usize;
     fn anoncreds_process_credential(cred: usize, md: usize, link_secret: *const c_char, cred_def: usize, rev_reg_def: usize, result_p: *mut usize) -> usize;
@@ -510,6 +521,108 @@ pub fn run(tier: &str, _seed: u64, outdir: &str) {
             })();
             a(&format!("create_credential:encoded-values-{}", vname), equal == Some(true), &mut out);
         }
+    }
+    // accessors, conversions and revocation operations: the C ABI answers what the native API answers
+    {
+        // (rc, Some(string) | None for a null result)
+        let get_attr = |f: unsafe extern "C" fn(usize, *const c_char, *mut *const c_char) -> usize, h: usize, name: &str| -> (usize, Option<String>) {
+            let n = cs(name);
+            let mut p: *const c_char = std::ptr::null();
+            let rc = unsafe { f(h, n.as_ptr(), &mut p) };
+            (rc, if rc == 0 && !p.is_null() { Some(unsafe { CStr::from_ptr(p) }.to_string_lossy().to_string()) } else { None })
+        };
+        for (cname, h, doc) in [("cred0", l.cred0, &docs["cred0"]), ("cred1", l.cred1, &docs["cred1"])] {
+            let native: anoncreds::types::Credential = serde_json::from_value(doc.clone()).unwrap();
+            let expect: Vec<(&str, Option<Option<String>>)> = vec![
+                ("schema_id", Some(Some(native.schema_id.to_string()))), ("cred_def_id", Some(Some(native.cred_def_id.to_string()))),
+                ("rev_reg_id", Some(native.rev_reg_id.as_ref().map(|x| x.to_string()))),
+                ("rev_reg_index", Some(doc["signature"]["r_credential"]["i"].as_u64().map(|i| i.to_string()))),
+                ("values", None), ("", None),
+            ];
+            for (n, e) in expect {
+                let (rc, got) = get_attr(anoncreds_credential_get_attribute, h, n);
+                let equal = match e { Some(v) => rc == 0 && got == v, None => rc != 0 };
+                a(&format!("credential_get_attribute:{}:{}", cname, if n.is_empty() { "empty" } else { n }), equal, &mut out);
+            }
+        }
+        for (n, e) in [("max_cred_num", Some(w.reg.def.value.max_cred_num.to_string())), ("tails_hash", Some(w.reg.def.value.tails_hash.to_string())), ("tails_location", Some(w.reg.def.value.tails_location.to_string())), ("id", None)] {
+            let (rc, got) = get_attr(anoncreds_revocation_registry_definition_get_attribute, l.reg_def, n);
+            a(&format!("reg_def_get_attribute:{}", n), match e { Some(v) => rc == 0 && got == Some(v), None => rc != 0 }, &mut out);
+        }
+        // legacy <-> W3C through the C ABI
+        for (cname, h, doc, cdi) in [("cred0", l.cred0, &docs["cred0"], 0usize), ("cred1", l.cred1, &docs["cred1"], 1usize)] {
+            let native: anoncreds::types::Credential = serde_json::from_value(doc.clone()).unwrap();
+            let issuer = w.cds[cdi].issuer_id.clone();
+            for ver in [None, Some("1.1"), Some("2.0"), Some("3.0")] {
+                let nat = ver.map_or(Ok(None), |v| anoncreds::data_types::w3c::VerifiableCredentialSpecVersion::try_from(v).map(Some))
+                    .ok().and_then(|v| anoncreds::w3c::credential_conversion::credential_to_w3c(&native, &issuer.as_str().try_into().unwrap(), v).ok());
+                let (ic, vc) = (cs(&issuer), ver.map(cs));
+                let mut wh = 0usize;
+                let rc = unsafe { anoncreds_credential_to_w3c(h, ic.as_ptr(), vc.as_ref().map_or(std::ptr::null(), |c| c.as_ptr()), &mut wh) };
+                let equal = match &nat {
+                    // the issuance date is the time of the call
+                    Some(n) => {
+                        let undated = |mut v: Value| { if let Some(o) = v.as_object_mut() { o.remove("issuanceDate"); o.remove("validFrom"); } crate::c15::normalise(v) };
+                        rc == 0 && get_json(wh).map(undated) == Some(undated(serde_json::to_value(n).unwrap()))
+                    }
+                    None => rc != 0,
+                };
+                a(&format!("credential_to_w3c:{}:{}", cname, ver.unwrap_or("default")), equal, &mut out);
+                if let (Some(n), 0) = (&nat, rc) {
+                    let back = anoncreds::w3c::credential_conversion::credential_from_w3c(n).ok();
+                    let mut bh = 0usize;
+                    let rc2 = unsafe { anoncreds_credential_from_w3c(wh, &mut bh) };
+                    a(&format!("credential_from_w3c:{}:{}", cname, ver.unwrap_or("default")), match back { Some(b) => rc2 == 0 && get_json(bh) == Some(serde_json::to_value(&b).unwrap()), None => rc2 != 0 }, &mut out);
+                    // proof details of the W3C form
+                    let mut dh = 0usize;
+                    let rc3 = unsafe { anoncreds_w3c_credential_get_integrity_proof_details(wh, &mut dh) };
+                    for (an, e) in [("schema_id", Some(Some(native.schema_id.to_string()))), ("cred_def_id", Some(Some(native.cred_def_id.to_string()))),
+                                    ("rev_reg_id", Some(native.rev_reg_id.as_ref().map(|x| x.to_string()))), ("rev_reg_index", Some(doc["signature"]["r_credential"]["i"].as_u64().map(|i| i.to_string()))),
+                                    ("timestamp", Some(None)), ("nonce", None)] {
+                        let (rc4, got) = get_attr(anoncreds_w3c_credential_proof_get_attribute, dh, an);
+                        a(&format!("w3c_proof_get_attribute:{}:{}", cname, an), rc3 == 0 && match e { Some(v) => rc4 == 0 && got == v, None => rc4 != 0 }, &mut out);
+                    }
+                }
+            }
+        }
+        // revocation status lists: creation and updates with index lists
+        let mut rp = 0usize;
+        unsafe { anoncreds_revocation_registry_definition_private_from_json(buf(&serde_json::to_value(&w.reg.def_priv).unwrap()), &mut rp) };
+        let rid = cs(vw::REG_ID);
+        let iss = cs(&w.cds[1].issuer_id);
+        for (by_default, ts) in [(true, 100i64), (false, 100), (true, 0), (false, -5), (true, 4102444800)] {
+            let native = anoncreds::issuer::create_revocation_status_list(&w.cds[1].cred_def, vw::REG_ID.try_into().unwrap(), &w.reg.def, &w.reg.def_priv, by_default, if ts <= 0 { None } else { Some(ts as u64) }).ok();
+            let mut lh = 0usize;
+            let rc = unsafe { anoncreds_create_revocation_status_list(l.cred_def1, rid.as_ptr(), l.reg_def, rp, iss.as_ptr(), by_default as i8, ts, &mut lh) };
+            a(&format!("create_status_list:{}:{}", if by_default { "by-default" } else { "on-demand" }, ts), match native { Some(n) => rc == 0 && get_json(lh) == Some(serde_json::to_value(&n).unwrap()), None => rc != 0 }, &mut out);
+        }
+        let cur: anoncreds::types::RevocationStatusList = serde_json::from_value(docs["list0"].clone()).unwrap();
+        let updates: Vec<(&str, Vec<i32>, Vec<i32>, i64)> = vec![
+            ("revoke-one", vec![], vec![2], 200), ("revoke-several-unordered", vec![], vec![4, 1, 3], 200), ("issue-and-revoke", vec![3], vec![2], 200), ("revoke-duplicate-index", vec![], vec![2, 2], 200),
+            ("nothing", vec![], vec![], 200), ("no-timestamp", vec![], vec![2], 0), ("out-of-range", vec![], vec![99], 200), ("both-same-index", vec![2], vec![2], 200), ("issue-first-revoke-last", vec![1], vec![5], 300),
+        ];
+        for (uname, issued, revoked, ts) in updates.iter() {
+            let set = |v: &Vec<i32>| if v.is_empty() { None } else { Some(v.iter().map(|x| *x as u32).collect::<std::collections::BTreeSet<u32>>()) };
+            let native = anoncreds::issuer::update_revocation_status_list(&w.cds[1].cred_def, &w.reg.def, &w.reg.def_priv, &cur, set(issued), set(revoked), if *ts <= 0 { None } else { Some(*ts as u64) }).ok();
+            let mut nh = 0usize;
+            let rc = unsafe { anoncreds_update_revocation_status_list(l.cred_def1, l.reg_def, rp, l.list0, FfiList::of(issued), FfiList::of(revoked), *ts, &mut nh) };
+            // without a timestamp the library stamps the current time: compared without it
+            let strip = |mut v: Value| { if *ts <= 0 { if let Some(o) = v.as_object_mut() { o.remove("timestamp"); } } v };
+            a(&format!("update_status_list:{}", uname), match native { Some(n) => rc == 0 && get_json(nh).map(strip) == Some(strip(serde_json::to_value(&n).unwrap())), None => rc != 0 }, &mut out);
+            // the holder's state for the updated list, from scratch and from the previous state
+            if let (Some(nl), 0) = (get_json(nh), rc) {
+                let nlist: anoncreds::types::RevocationStatusList = serde_json::from_value(nl).unwrap();
+                let tp = cs(&w.tails_path);
+                for (sname, idx, with_old) in [("scratch", 1i64, false), ("incremental", 1, true), ("index-out-of-range", 99, false), ("negative-index", -1, false)] {
+                    let old_state: Option<anoncreds::types::CredentialRevocationState> = if with_old { serde_json::from_value(docs["state10"].clone()).ok() } else { None };
+                    let native = u32::try_from(idx).ok().and_then(|i| anoncreds::prover::create_or_update_revocation_state(&w.tails_path, &w.reg.def, &nlist, i, old_state.as_ref(), if with_old { Some(&cur) } else { None }).ok());
+                    let mut sh = 0usize;
+                    let rc5 = unsafe { anoncreds_create_or_update_revocation_state(l.reg_def, nh, idx, tp.as_ptr(), if with_old { l.state10 } else { 0 }, if with_old { l.list0 } else { 0 }, &mut sh) };
+                    a(&format!("revocation_state:{}:{}", uname, sname), match native { Some(n) => rc5 == 0 && get_json(sh) == Some(serde_json::to_value(&n).unwrap()), None => rc5 != 0 }, &mut out);
+                }
+            }
+        }
+        let _ = anoncreds_w3c_credential_from_json;
     }
     // verification with interval overrides: every entry of the list reaches the verifier, grouped by registry
     {
